@@ -76,14 +76,14 @@ def st_rop(draw, extra=()):
         return {'o': 'copy'}
     if o == 'failappend':
         return {'o': 'failappend', 'items': [draw(st_item()) for _ in range(draw(st.integers(0, 3)))],
-                'kind': draw(st.sampled_from(['raise', 'badatom', 'unconv', 'interrupt'])), 'gen': draw(st.booleans())}
+                'kind': draw(st.sampled_from(['raise', 'badatom', 'unconv', 'interrupt', 'halt', 'lead1'])), 'gen': draw(st.booleans())}
     if o == 'fillmax':
         return {'o': 'fillmax', 'seed': draw(st.integers(0, 2 ** 31))}
     if o == 'overfill':
         return {'o': 'overfill', 'style': draw(st.sampled_from(['append', 'iter', 'iter-gen', 'iter-many', 'iter-ndarray'])), 'over': draw(st.sampled_from([1, 1, 2, 9, 130, 300])),
                 'seed': draw(st.integers(0, 2 ** 31))}
     if o == 'iterappend-x':
-        return {'o': 'iterappend-x', 'style': draw(st.sampled_from(['from-self', 'from-self', 'gen-sets-mode', 'readcode-inside', 'manyitems', 'manyitems'])),
+        return {'o': 'iterappend-x', 'style': draw(st.sampled_from(['from-self', 'from-self', 'gen-sets-mode', 'readcode-inside', 'manyitems', 'manyitems', 'many-empties'])),
                 'n': draw(st.sampled_from([130, 130, 300, 1100])), 'seed': draw(st.integers(0, 2 ** 31))}
     if o == 'recreate':
         return {'o': 'recreate', 'how': draw(st.sampled_from(['delete_raggedarray', 'rmtree']))}
@@ -111,6 +111,26 @@ def st_ragged_history(draw, max_ops=8, extra=()):
     return _draw_lazy(draw, spec)
 
 
+def big_item_specs():
+    """One appended subarray above 1, 16 and 64 MiB, of the array's own type and of another one, in C, Fortran, transposed,
+    strided and reversed memory layout."""
+    for (t, bo, atom), (ot, obo) in ((('int16', '<', [3]), ('float64', '<')), (('float32', '>', []), ('int32', '<')), (('uint8', '<', [2, 2]), ('int64', '>'))):
+        rowitems = int(np.prod(atom)) if atom else 1
+        for mib in (1, 16, 64):
+            n = (mib * 2 ** 20) // (rowitems * np.dtype(ot).itemsize) + 7
+            for layout in ('C', 'F', 'T', 'strided', 'neg'):
+                if layout in ('F', 'T') and not atom:
+                    continue
+                if mib == 64 and layout not in ('F', 'neg'):
+                    continue
+                start = {'how': 'as', 'dt': {'t': t, 'bo': bo}, 'atom': atom, 'indextype': 'int64', 'meta': None, 'mode': 'r+', 'dtarg': True, 'gen': False,
+                         'items': [{'n': 2, 'seed': 1, 'form': 'nd'}]}
+                big = {'n': n, 'seed': 5, 'form': 'otherdt', 'dt': {'t': ot, 'bo': obo}, 'layout': layout}
+                own = {'n': n // 2, 'seed': 6, 'form': 'layout', 'layout': layout}
+                yield {'start': start, 'big': f'{mib}MiB', 'ops': [{'o': 'append', 'item': big}, {'o': 'trunc', 'i': 1, 'by': 'obj'},
+                                                                    {'o': 'iterappend', 'items': [{'n': 1, 'seed': 7, 'form': 'nd'}, own, big], 'gen': True}]}
+
+
 GROWTH_TRUNC = [0, 1, 2, 3, 4, 5, -1, -2, 'half']
 
 
@@ -134,7 +154,7 @@ def st_growth_history(draw, max_ops=12):
             ops.append({'o': 'trunc', 'i': draw(st.sampled_from(GROWTH_TRUNC)), 'by': 'obj'})
         elif o == 'failappend':
             ops.append({'o': 'failappend', 'items': [draw(st_item()) for _ in range(draw(st.integers(0, 3)))],
-                        'kind': draw(st.sampled_from(['raise', 'badatom', 'unconv', 'interrupt'])), 'gen': True})
+                        'kind': draw(st.sampled_from(['raise', 'badatom', 'unconv', 'interrupt', 'halt', 'lead1'])), 'gen': True})
         elif o == 'ctx':
             ops.append({'o': 'ctx', 'via': draw(st.sampled_from(['open_arrays', 'iter_arrays'])),
                         'ops': [{'o': 'append', 'item': draw(st_item())} for _ in range(draw(st.integers(1, 3)))]})
@@ -155,7 +175,8 @@ def build_item(it, dt, atom):
         return gens.apply_layout(gens.build_array(dt, shape, {'m': 'raw', 's': it['seed']}), it['layout'])
     if form == 'otherdt':
         odt = dt_of(it['dt'])
-        return gens.build_array(odt, shape, {'m': gens.cast_mode(it['dt']['t'], dt.name), 's': it['seed']})
+        x = gens.build_array(odt, shape, {'m': gens.cast_mode(it['dt']['t'], dt.name), 's': it['seed']})
+        return gens.apply_layout(x, it['layout']) if it.get('layout') else x
     if form == 'list':
         x = gens.build_array(dt, shape, {'m': 'safe', 's': it['seed']})
         return x.astype(dt.newbyteorder('=')).tolist()
@@ -504,6 +525,13 @@ class RaggedRun:
                 pool = mk(n_, 1)
                 new = [pool[i:i + (i % 2)] if i % 7 else pool[i:i + 1] for i in range(n_)]     # lengths 0 and 1
                 src = (x for x in new)
+            elif style == 'many-empties':
+                # more subarrays than the index type has values (130 / 300 / 1100 of them), all without rows: the index type bounds
+                # positions in the values array, not the number of subarrays
+                n_ = op['n']
+                new = [mk(0, 1) for _ in range(n_)]
+                new[n_ // 2] = mk(1, 2) if self.fits(1) else new[n_ // 2]
+                src = (x for x in new)
             elif style == 'from-self':
                 if not m or not self.fits(self.total()):
                     return True
@@ -679,13 +707,18 @@ class RaggedRun:
 
             class _Boom(Exception):
                 pass
-            bad = np.zeros((2,) + tuple(self.atom) + (2,), self.dt) if fk == 'badatom' else [['x', 'y']] if fk == 'unconv' else None
+
+            class _Halt(BaseException):
+                pass
+            # lead1: a valid subarray wrapped in one more axis of length 1 - shape (1, 3) + atom - which is one rank too many
+            bad = np.zeros((2,) + tuple(self.atom) + (2,), self.dt) if fk == 'badatom' else [['x', 'y']] if fk == 'unconv' else \
+                np.ones((1, 3) + tuple(self.atom), self.dt) if fk == 'lead1' else None
 
             def src():
                 for x in xs:
                     yield x
                 if bad is None:
-                    raise (KeyboardInterrupt() if fk == 'interrupt' else _Boom('data source failed'))      # interrupt: Ctrl-C while the source runs
+                    raise (KeyboardInterrupt() if fk == 'interrupt' else _Halt('stop') if fk == 'halt' else _Boom('data source failed'))      # interrupt: Ctrl-C while the source runs; halt: an application's own BaseException
                 yield bad
             it = src() if (op.get('gen', True) or bad is None) else xs + [bad]
             try:
